@@ -17,7 +17,9 @@ class Exec:
         return dict(seed=self.seed, steps=self.steps, profile=self.profile, bits=self.bits)
 
 
-def run_exec(exe, ex, keep_db=False, env=None, timeout=90):
+def run_exec(exe, ex, keep_db=False, env=None, timeout=None):
+    if timeout is None:
+        timeout = 120 + int(ex.steps * 0.25)      # long runs on a loaded machine (thorough tier runs 16 at a time)
     d = c.scratch('seq')
     ex.dir = d
     ex.trace = os.path.join(d, 'trace.ndjson')
